@@ -1,6 +1,6 @@
 (* dispatch : list Z -> list Z  -- the single entry point of the extracted model *)
 From Coq Require Import ZArith List Bool.
-From GV.Model Require Export Wire.
+From GV.Model Require Export Wire Wire2.
 Import ListNotations.
 Open Scope Z_scope.
 
@@ -41,10 +41,46 @@ Definition op_transition_leaves (l : list Z) : list Z :=
   run (do ns <- plist (pof tname_of); do own <- pbool; do a <- paction; do s <- pstate; pret (ns, own, a, s))
       (fun '(ns, own, a, s) => eleaves estate (leaves (chain (map tfun_of ns) s a own))) l.
 
+Definition op_reward (l : list Z) : list Z :=
+  run (do r <- prname; do s <- pstate; do a <- paction; do s' <- pstate; pret (r, s, a, s'))
+      (fun '(r, s, a, s') => eres erv (reward r s a s')) l.
+Definition op_termination (l : list Z) : list Z :=
+  run (do t <- ptmname; do s <- pstate; do a <- paction; do s' <- pstate; pret (t, s, a, s'))
+      (fun '(t, s, a, s') => eres ebool (terminates t s a s')) l.
+Definition op_observation (l : list Z) : list Z :=
+  run (do v <- pvname; do own <- pbool; do ar <- parea; do rays <- prays; do s <- pstate; do tape <- ptape; pret (v, own, ar, rays, s, tape))
+      (fun '(v, own, ar, rays, s, tape) => eoutcome estate (interp (from_visibility v own rays ar s) tape)) l.
+Definition op_visibility (l : list Z) : list Z :=
+  run (do v <- pvname; do own <- pbool; do rays <- prays; do g <- pgrid; do p <- ppos; do tape <- ptape; pret (v, own, rays, g, p, tape))
+      (fun '(v, own, rays, g, p, tape) => eoutcome emask (interp (visibility v own rays g p) tape)) l.
+Definition op_reset (l : list Z) : list Z :=
+  run (do rp <- prparams; do own <- pbool; do tape <- ptape; pret (rp, own, tape))
+      (fun '(rp, own, tape) => eoutcome estate (interp (reset_of rp own) tape)) l.
+Definition op_reset_leaves (l : list Z) : list Z :=
+  run (do rp <- prparams; do own <- pbool; pret (rp, own)) (fun '(rp, own) => eleaves estate (leaves (reset_of rp own))) l.
+Definition op_env (l : list Z) : list Z :=
+  run (do e <- pgridworld; do debug <- pbool; do ops <- plist piop; do tape <- ptape; pret (e, debug, ops, tape))
+      (fun '(e, debug, ops, tape) => eoutcome (elist (eres eiout)) (interp (irun e debug ie_init ops) tape)) l.
+Definition op_contains (l : list Z) : list Z :=
+  match l with
+  | 0 :: r => run (do ss <- psspace; do s <- pstate; pret (ss, s)) (fun '(ss, s) => ebool (ss_contains ss s)) r
+  | 1 :: r => run (do os <- pospace; do s <- pstate; pret (os, s)) (fun '(os, s) => ebool (os_contains os s)) r
+  | 2 :: r => run (do acts <- plist paction; do a <- paction; pret (acts, a)) (fun '(acts, a) => ebool (as_contains acts a)) r
+  | _ => undecodable
+  end.
+
 Definition dispatch (l : list Z) : list Z :=
   match l with
   | 1 :: r => op_geometry r
   | 2 :: r => op_transition r
   | 3 :: r => op_transition_leaves r
+  | 4 :: r => op_reward r
+  | 5 :: r => op_termination r
+  | 6 :: r => op_observation r
+  | 7 :: r => op_visibility r
+  | 8 :: r => op_reset r
+  | 9 :: r => op_reset_leaves r
+  | 10 :: r => op_env r
+  | 11 :: r => op_contains r
   | _ => undecodable
   end.
